@@ -10,7 +10,7 @@ import (
 
 func init() {
 	Register(&Prop{
-		ID: "C08", Bubble: false, ArmLockProbes: true, Run: runC08, QuickRuns: 2000,
+		ID: "C08", Bubble: false, ArmLockProbes: true, Run: runC08, QuickRuns: 6000,
 		ExpectedProbes: []string{"pair_checked", "skipped_probe", "skipped_baseline_changed"},
 		Rule: "one run = twin instances of Vegas / Gradient / Gradient2 built with the same configuration and the same math/rand seed, fed the same seeded prefix history (asserted: equal estimate and baseline), then one final sample differing only in rtt (baseline <= rtt_low < rtt_high); oracle: estimate(high) <= estimate(low); pairs where the final sample was a probe or lowered the baseline are skipped and counted; " +
 			"non-trivial = the pair was not skipped and at least one twin changed its estimate on the final sample; distinct = distinct choice tapes",
@@ -20,7 +20,7 @@ func init() {
 		Assumptions: []string{"hidden jitter draws are made identical by rand.Seed (GODEBUG randseednop=0)"},
 	})
 	Register(&Prop{
-		ID: "C15", Bubble: false, ArmLockProbes: true, Run: runC15, QuickRuns: 1200,
+		ID: "C15", Bubble: false, ArmLockProbes: true, Run: runC15, QuickRuns: 2000,
 		ExpectedProbes: []string{"rtt_stepped_up"},
 		Rule: "one run = Vegas (probe multiplier 1..60) or Gradient (probe interval 1..2000 or disabled) fed 200..1700 samples with rtt in [1, 2^53): backend model with step changes up and down, spikes and plateaus; an observer that needs no private state keeps the set of reset positions consistent with every RTTNoLoad() seen so far; " +
 			"oracle: baseline unset or <= current rtt; the feasible set never empties (baseline is the minimum of the samples since some reset); the most recent feasible reset is younger than multiplier x (largest estimate+1) + 1 (Vegas) / 2 x interval (Gradient); " +
@@ -31,7 +31,7 @@ func init() {
 		Assumptions: []string{"rtt < 2^53 so RTTNoLoad round-trips exactly through float64"},
 	})
 	Register(&Prop{
-		ID: "C16", Bubble: true, ArmLockProbes: true, Run: runC16, QuickRuns: 2500,
+		ID: "C16", Bubble: true, ArmLockProbes: true, Run: runC16, QuickRuns: 5000,
 		ExpectedProbes: []string{"estimate_changed_with_listeners", "concurrent_notifications_checked"},
 		Rule: "one run = one limit implementation (AIMD, Vegas, Gradient, Gradient2, Settable, Fixed) bare or under windowed / traced / both wrappers, 0..4 listeners registered through the outermost wrapper at seeded points of a 20..200 operation history (samples incl. faults, SetLimit for the settable limit); " +
 			"oracle after every operation: if EstimatedLimit() changed, every listener registered before the operation was called during it; every listener called has last delivered value == EstimatedLimit(); wrapper estimate == delegate estimate; the traced wrapper forwards sample arguments unchanged to a recording delegate; " +
@@ -47,7 +47,7 @@ func runC08(r *Run) {
 	cfg := drawAlgoCfg(t, []string{"vegas", "gradient", "gradient2"}, nil)
 	k := int64(t.Draw(1<<40, "twin-seed"))
 	nPrefix := t.Intn(scale(200, 900), "prefix")
-	if t.Chance(10, "short-prefix") || (cfg.Ctor != "" && t.Chance(60, "short-prefix-ctor")) {
+	if t.Chance(10, "short-prefix") || ((cfg.Ctor != "" || cfg.Max < cfg.Initial) && t.Chance(60, "short-prefix-ctor")) {
 		nPrefix = t.Intn(4, "prefix-short") // the state right after construction (plus the sample that sets the baseline)
 	}
 	g := newEnvGen(r)
